@@ -167,6 +167,36 @@ impl C01 {
     if got != exp {
       out.fail(env, viol("month", "day_count", case, &[("y", y), ("m", m)], format!("{:04}-{:02}", y, m), exp.to_string(), got.to_string()));
     }
+    // the same month obtained in other ways (stepped from neighbours whose views were read first, handed out by a day,
+    // listed by its year) has the same length and labels
+    let ord = (y - 1) * 12 + (m - 1);
+    let mut routes: Vec<(String, Result<(i64, i64, i64, i64), String>)> = vec![];
+    let view = |mo: &SolarMonth| (mo.get_year() as i64, mo.get_month() as i64, mo.get_day_count() as i64, mo.get_index_in_year() as i64);
+    for n in [1i64, -1, 2, -11, 12, -13, 25, -1200] {
+      let src = ord - n;
+      if src < 0 || src >= 9999 * 12 {
+        continue;
+      }
+      let (sy, sm) = (src / 12 + 1, src % 12 + 1);
+      routes.push((format!("{:04}-{:02} stepped by {}", sy, sm, n), guard(|| { let a = SolarMonth::from_ym(sy as isize, sm as usize); let _ = (a.get_day_count(), a.get_week_count(0), a.get_solar_year().is_leap(), a.to_string()); view(&a.next(n as isize)) })));
+    }
+    routes.push(("handed out by its first existing day".into(), guard(|| view(&SolarDay::from_ymd(y as isize, m as usize, 1).get_solar_month()))));
+    routes.push(("handed out by its last day".into(), guard(|| view(&SolarDay::from_ymd(y as isize, m as usize, if y == 1582 && m == 10 { 31 } else { exp } as usize).get_solar_month()))));
+    routes.push(("listed by its year".into(), guard(|| view(&SolarYear::from_year(y as isize).get_months()[(m - 1) as usize]))));
+    for (name, r) in routes {
+      let want = (y, m, exp, m - 1);
+      match r {
+        Ok(v) if v == want => {}
+        Ok(v) => {
+          out.fail(env, viol("month", "month_obtained_differently", case, &[("y", y), ("m", m)], format!("{:04}-{:02} {}", y, m, name), format!("{:?} (year, month, days, index in year)", want), format!("{:?}", v)));
+          break;
+        }
+        Err(e) => {
+          out.fail(env, viol("month", "month_obtained_differently_panics", case, &[("y", y), ("m", m)], format!("{:04}-{:02} {}", y, m, name), format!("{:?}", want), e));
+          break;
+        }
+      }
+    }
   }
 
   fn eval_year(&self, env: &Env, out: &mut Out, case: &Case) {
@@ -186,6 +216,35 @@ impl C01 {
     let leap = month_len_nominal(y, 2) == 29;
     if sy.is_leap() != leap {
       out.fail(env, viol("year", "is_leap", case, &[("y", y)], format!("{:04}", y), leap.to_string(), sy.is_leap().to_string()));
+    }
+    // the same year obtained in other ways: stepped from other years (views read first), handed out by a month, a day, a
+    // half-year, a season
+    let view = |x: &SolarYear| (x.get_year() as i64, x.get_day_count() as i64, x.is_leap(), x.get_months()[1].get_day_count() as i64);
+    let want = (y, exp, leap, month_len_nominal(y, 2));
+    let mut routes: Vec<(String, Result<(i64, i64, bool, i64), String>)> = vec![];
+    for n in [1i64, -1, 3, -4, 100, -400, 1582 - y, y - 2000] {
+      let src = y - n;
+      if n == 0 || src < 1 || src > 9999 {
+        continue;
+      }
+      routes.push((format!("{:04} stepped by {}", src, n), guard(|| { let a = SolarYear::from_year(src as isize); let _ = (a.is_leap(), a.get_day_count(), a.to_string()); view(&a.next(n as isize)) })));
+    }
+    routes.push(("handed out by its February".into(), guard(|| view(&SolarMonth::from_ym(y as isize, 2).get_solar_year()))));
+    routes.push(("handed out by a month stepped from the previous December".into(), guard(|| if y > 1 { view(&SolarMonth::from_ym(y as isize - 1, 12).next(3).get_solar_year()) } else { want })));
+    routes.push(("handed out by the month of its 1 March".into(), guard(|| view(&SolarDay::from_ymd(y as isize, 3, 1).get_solar_month().get_solar_year()))));
+    routes.push(("handed out by its second half-year / fourth season".into(), guard(|| { let a = view(&tyme4rs::tyme::solar::SolarHalfYear::from_index(y as isize, 1).get_solar_year()); let b = view(&tyme4rs::tyme::solar::SolarSeason::from_index(y as isize, 3).get_solar_year()); if a == b { a } else { (0, 0, false, 0) } })));
+    for (name, r) in routes {
+      match r {
+        Ok(v) if v == want => {}
+        Ok(v) => {
+          out.fail(env, viol("year", "year_obtained_differently", case, &[("y", y)], format!("{:04} {}", y, name), format!("{:?} (year, days, leap, days of February)", want), format!("{:?}", v)));
+          break;
+        }
+        Err(e) => {
+          out.fail(env, viol("year", "year_obtained_differently_panics", case, &[("y", y)], format!("{:04} {}", y, name), format!("{:?}", want), e));
+          break;
+        }
+      }
     }
   }
 
